@@ -12,7 +12,10 @@ CONSTANTS LazyC, LazyInner, Mixin, KwFlags
 
 Dt(y) == <<"date", y, 2, 28>>
 PT == <<"dc", "P", << <<"d", <<"date">>, <<"req">>, <<>> >> >>, << <<"mixin", "plain">> >> >>
-InnerT == <<"dc", "Inner", << <<"d", <<"date">>, <<"req">>, <<>> >>, <<"o", <<"opt", <<"int">> >>, <<"val", None>>, <<>> >> >>,
+\* (the nested class holds a format-native member too: bytes stay native under msgpack at EVERY depth, also when the nested
+\*  class's helper packer is compiled lazily)
+InnerT == <<"dc", "Inner", << <<"d", <<"date">>, <<"req">>, <<>> >>, <<"o", <<"opt", <<"int">> >>, <<"val", None>>, <<>> >>,
+                              <<"blob", <<"bytes">>, <<"val", <<"bytes", <<7, 8>> >> >>, <<>> >> >>,
             << <<"flags", {"dialect_flag"}>> >> \o (IF LazyInner THEN << <<"lazy", TRUE>> >> ELSE <<>>) >>
 CFields == << <<"a", <<"date">>, <<"req">>, <<>> >>,
               <<"raw", <<"bytes">>, <<"req">>, <<>> >>,
@@ -40,12 +43,12 @@ MCDNames == IF KwFlags THEN {"none", "D1"} ELSE {"none", "D1", "D2", "D3"}
 MCFmtsOf(n) == IF Mixin = "dict" THEN {"dict"} ELSE {"dict", Mixin}
 MCKwNames == IF KwFlags THEN (IF Mixin = "orjson" THEN {"none", "omit_none", "by_alias", "newline"} ELSE {"none", "omit_none", "by_alias"}) ELSE {"none"}
 Raw == <<"bytes", <<1, 2, 255>> >>
-InnerV(y, o) == <<"obj", "Inner", <<Dt(y), o>> >>
+InnerV(y, o) == <<"obj", "Inner", <<Dt(y), o, <<"bytes", <<9, 255>> >> >> >>
 MCValueOf(n) ==
   IF n = "C" THEN <<"obj", "C", <<Dt(2024), Raw, InnerV(2021, None), L(<<InnerV(2022, I(5))>>), <<"obj", "P", <<Dt(2023)>> >>, Dt(2025), None>> >>
   ELSE <<"obj", "S", <<Dt(2024), Raw, InnerV(2021, None), L(<<InnerV(2022, I(5))>>), <<"obj", "P", <<Dt(2023)>> >>, Dt(2025), S("s"), Dt(2019)>> >>
 Ds(y) == S(IsoDate(y, 2, 28))
-InnerJ(y) == Dct(<< <<S("d"), Ds(y)>> >>)
+InnerJ(y) == Dct(<< <<S("d"), Ds(y)>>, <<S("blob"), S(EncodeBytes(<<9, 255>>))>> >>)
 MCInputOf(n) ==
   Dct(<< <<S("a"), Ds(2024)>>, <<S("raw"), S(EncodeBytes(<<1, 2, 255>>))>>, <<S("inner"), InnerJ(2021)>>, <<S("items"), L(<<InnerJ(2022)>>)>>, <<S("p"), InnerJ(2023)>>, <<S("u"), Ds(2025)>> >>
       \o (IF n = "S" THEN << <<S("z"), Ds(2019)>>, <<S("oo"), S("t")>> >> ELSE <<>>))
